@@ -60,3 +60,156 @@ def conflicts(rng):
         g.sched.append(["drain"])
     return dict(flavour=fl.key(), base=g.base, schedule=g.sched, hash_mult=rng.choice([1, 3, 7, 11, 2654435761]),
                 mode=dict(origin=None, check_spec=False, no_conflicted=False, cov_every_step=True))
+
+
+def confinement(rng):
+    """C12 family: one acting side (id-stable); objects inside the root, in other folders, in a prefix-sibling
+    folder, at the account root; moves across the root boundary; roots by path or by oid; optionally a translate
+    function that declines a sub-folder."""
+    side = rng.choice([0, 1])
+    base_fl = rng.choice([f for f in CLEAN_FLAVOURS if not f.oip[side]])
+    fl = E.Flavour(base_fl.oip, base_fl.cs, False, rng.choice(["path", "oid"]), base_fl.roots)
+    g = EC.Gen(rng, fl, [side], 0)
+    g.allow_empty = False
+    root = fl.roots[side]
+    sib = root + "2"                       # '/local2' : shares only a name prefix with the root
+    outs = ["/other", sib, root + "x"]
+    decline = rng.random() < 0.3
+    base, base_other = [], []
+    g.make_base(rng.randint(1, 4))         # inside objects, created on side 0 and synchronised
+    base += g.base
+    # outside objects live on the acting side only (they must never be copied anywhere)
+    pre = []
+    for d in outs:
+        pre.append(["mkdir", d])
+        pre.append(["create", d + "/" + g.fresh("F"), g.content()])
+    pre.append(["create", "/" + g.fresh("F"), g.content()])
+    (base if side == 0 else base_other).extend(pre)
+    # the other side has unrelated outside content too
+    other_pre = [["mkdir", "/elsewhere"], ["create", "/elsewhere/" + g.fresh("F"), g.content()]]
+    (base_other if side == 0 else base).extend(other_pre)
+    priv_files = []
+    if decline:
+        # the declined folder is not part of the generator's tree: nothing is moved across its boundary
+        # (moving a synced file into a declined folder leaves the peer copy behind: finding E-12, Stream B)
+        base.append(["mkdir", g.abs(0, "/private")])
+    out_files = [a[1] for a in pre if a[0] == "create"]
+    sched = g.sched
+    sched.append(["drain"])
+    for _ in range(rng.randint(2, 10)):
+        r = rng.random()
+        if r < 0.35:
+            g.one_op(side)
+        elif decline and r < 0.42:                        # operations inside the declined folder
+            if priv_files and rng.random() < 0.5:
+                p = rng.choice(priv_files)
+                if rng.random() < 0.5:
+                    sched.append(["user", side, ["write", p, g.content()]])
+                else:
+                    priv_files.remove(p)
+                    sched.append(["user", side, ["delete", p]])
+            else:
+                p = g.abs(side, "/private/" + g.fresh("F"))
+                priv_files.append(p)
+                sched.append(["user", side, ["create", p, g.content()]])
+        elif r < 0.5:                                     # operations entirely outside
+            d = rng.choice(outs)
+            k = rng.random()
+            if k < 0.5:
+                p = d + "/" + g.fresh("F")
+                out_files.append(p)
+                sched.append(["user", side, ["create", p, g.content()]])
+            elif k < 0.75 and out_files:
+                sched.append(["user", side, ["write", rng.choice(out_files), g.content()]])
+            elif out_files:
+                p = out_files.pop(rng.randrange(len(out_files)))
+                q = rng.choice(outs) + "/" + g.fresh("F")
+                out_files.append(q)
+                sched.append(["user", side, ["rename", p, q]])
+        elif r < 0.7 and g.files(side):                   # move a file out of the root
+            rel = rng.choice(g.files(side))
+            del g.tree[rel]
+            q = rng.choice(outs + [""]) + "/" + g.fresh("F")
+            out_files.append(q)
+            sched.append(["user", side, ["rename", g.abs(side, rel), q]])
+        elif r < 0.85 and out_files:                      # move a file into the root
+            p = out_files.pop(rng.randrange(len(out_files)))
+            d = rng.choice(g.dirs(side))
+            rel = d + "/" + g.fresh("F")
+            g.tree[rel] = "F"
+            sched.append(["user", side, ["rename", p, g.abs(side, rel)]])
+        elif r < 0.93:                                    # move a folder out of the root (bracketed)
+            ds = [d for d in g.dirs(side) if d]
+            if ds:
+                src = rng.choice(ds)
+                g.drain()
+                for p in list(g.tree):
+                    if p == src or p.startswith(src + "/"):
+                        del g.tree[p]
+                q = rng.choice(outs) + "/" + g.fresh("D")
+                sched.append(["user", side, ["rename", g.abs(side, src), q]])
+                g.drain()
+        else:                                             # an EMPTY folder moved into the root (bracketed), then filled
+            # (a non-empty folder moved in is not picked up with unfiltered events: known finding E-11, Stream B)
+            q = rng.choice(outs) + "/" + g.fresh("D")
+            f = g.fresh("F")
+            sched.append(["user", side, ["mkdir", q]])
+            rel = "/" + g.fresh("D")
+            g.drain()
+            g.tree[rel] = "D"
+            sched.append(["user", side, ["rename", q, g.abs(side, rel)]])
+            g.drain()
+            g.tree[rel + "/" + f] = "F"
+            sched.append(["user", side, ["create", g.abs(side, rel + "/" + f), g.content()]])
+        g.engine_noise(0.5)
+        if rng.random() < 0.15:
+            g.drain()
+    case = dict(flavour=fl.key(), base=base, base_other=base_other, schedule=sched,
+                hash_mult=rng.choice([1, 3, 7, 11, 2654435761]),
+                mode=dict(origin=side, check_spec=False, no_conflicted=True, cov_every_step=True))
+    if decline:
+        case["decline"] = "private"
+        case["ignore_names"] = ["private"]
+        case["mode"]["no_conflicted"] = False      # the ignore list doubles as the conflicted-name list
+    return case
+
+
+def run_confinement(case, monitor):
+    hooks = {}
+    if case.get("decline"):
+        import cloudsync
+        word = "/" + case["decline"]
+
+        def translate(cs, side, path):
+            if word in path:
+                return None
+            return cloudsync.CloudSync.translate(cs, side, path)
+        hooks["translate"] = translate
+    return EC.run_case(case, monitor, hooks=hooks)
+
+
+# ------------------------------------------------------------------ Stream B (deterministic; see streamb_gen.py)
+from . import streamb_gen as SB
+
+
+def sb_one(i):
+    return SB.wild_one(i)
+
+
+def sb_two(i):
+    return SB.wild_two(i)
+
+
+sb_one.by_index = True
+sb_two.by_index = True
+
+
+def _mk_sb_runner(prop):
+    def runner(case, monitor):
+        from . import streamb
+        return EC.run_case(streamb.apply_mode(prop, case), monitor)
+    return runner
+
+
+for _p in ("C01", "C02", "C03", "C04", "C12"):
+    globals()["run_streamb_" + _p] = _mk_sb_runner(_p)
